@@ -287,3 +287,7 @@ class C02(core.Prop):
 
 
 PROP = C02()
+
+# shape families added after the first complete pass (DESIGN 8.6-8.11); appended to the bounds written into the evidence
+BOUNDS_ADDED = '; plus: from_graph with offset keys and with reversed insertion order (atoms and beads), pipeline.VARIANTS on the molecule cases, shared-atom cases of C10 incl. aromatic ones'
+PROP.BOUNDS = {k: v + BOUNDS_ADDED for k, v in PROP.BOUNDS.items()}
